@@ -562,8 +562,8 @@ class InboundStream:
                 if ordered:
                     break
                 else:
+                    # re-examine this chunk as the possible start of a message
                     start_pos = None
-                    pos += 1
                     continue
 
             if chunk.flags & SCTP_DATA_LAST_FRAG:
@@ -577,6 +577,10 @@ class InboundStream:
                     self.sequence_number = uint16_add(self.sequence_number, 1)
                 pos = start_pos
                 yield (chunk.stream_id, chunk.protocol, user_data)
+                # the next chunk starts a new message, even if its TSN
+                # does not directly follow
+                start_pos = None
+                continue
             else:
                 pos += 1
 
